@@ -10,6 +10,7 @@ mod replhist;
 mod eqhash;
 mod attrprops;
 mod ropeprop;
+mod safety;
 mod treeprops;
 
 use runner::*;
@@ -73,6 +74,33 @@ fn main() {
     r["extra"] = json!({ "exhaustive_single_field_deltas": n, "exhaustive_limit": limit });
     for f in fails { r["failures"].as_array_mut().unwrap().push(json!({ "kind": if f.clause.ends_with("corr") { "corr" } else { "oracle" }, "clause": f.clause, "detail": f.detail, "known": null, "case": {"requests": []} })); }
     r
+  } else if id == "C17" {
+    let p = safety::c17_tree();
+    let mut j = tree_json(&p, &run_tree_prop(&p, &cfg));
+    let r2 = simple::run_simple("C17", &safety::gen_raw, &safety::raw_corpus(), &cfg);
+    for k in ["cases", "impl_panics", "oracle_failures", "unknown_oracle_failures", "corr_failures", "model_oracle_failures", "driver_lines"] { j[k] = json!(j[k].as_u64().unwrap_or(0) + r2[k].as_u64().unwrap_or(0)); }
+    j["distinct_nontrivial"] = json!(j["distinct_nontrivial"].as_u64().unwrap_or(0) + r2["distinct_nontrivial"].as_u64().unwrap_or(0));
+    for f in r2["failures"].as_array().unwrap() { j["failures"].as_array_mut().unwrap().push(f.clone()); }
+    for (k, v) in r2["distribution"].as_object().unwrap() { j["distribution"][k] = v.clone(); }
+    j["extra"] = json!({ "build_profile": if cfg!(debug_assertions) { "debug (overflow-checked)" } else { "release" } });
+    j
+  } else if id == "C19" {
+    let _ = rspack_sources::verif::take_unsafe_violations();
+    let p = safety::c19_tree();
+    let mut j = tree_json(&p, &run_tree_prop(&p, &cfg));
+    // all rope programs of C16 with the guarded assertions on
+    let r2 = simple::run_simple("C19", &ropeprop::gen, &ropeprop::corpus(), &cfg);
+    for k in ["cases", "impl_panics", "corr_failures", "model_oracle_failures", "driver_lines"] { j[k] = json!(j[k].as_u64().unwrap_or(0) + r2[k].as_u64().unwrap_or(0)); }
+    j["distinct_nontrivial"] = json!(j["distinct_nontrivial"].as_u64().unwrap_or(0) + r2["distinct_nontrivial"].as_u64().unwrap_or(0));
+    for f in r2["failures"].as_array().unwrap() { if f["kind"] != "oracle" || f["detail"].as_str().map_or(false, |d| d.contains(" U") || d.contains(",U") || d.contains("unsafe")) { j["failures"].as_array_mut().unwrap().push(f.clone()); } }
+    let violated = rspack_sources::verif::take_unsafe_violations();
+    let reached: std::collections::BTreeMap<String, u64> = rspack_sources::verif::unsafe_reached().into_iter().map(|(k, v)| (k.to_string(), v)).collect();
+    if !violated.is_empty() && !j["failures"].as_array().unwrap().iter().any(|f| f["kind"] == "oracle") {
+      j["failures"].as_array_mut().unwrap().push(json!({ "kind": "oracle", "clause": "unsafe-precondition", "detail": format!("violated sites: {:?}", violated), "known": null, "case": {"requests": []} }));
+    }
+    if !violated.is_empty() { j["oracle_failures"] = json!(j["oracle_failures"].as_u64().unwrap_or(0) + violated.len() as u64); j["unknown_oracle_failures"] = json!(j["unknown_oracle_failures"].as_u64().unwrap_or(0) + violated.len() as u64); }
+    j["extra"] = json!({ "unsafe_sites_reached": reached, "unsafe_sites_violated": violated });
+    j
   } else if id == "C16" {
     let mut r = simple::run_simple("C16", &ropeprop::gen, &ropeprop::corpus(), &cfg);
     let mut d = core::Driver::spawn(&cfg.driver);
